@@ -2581,26 +2581,23 @@ class Recipe:
         flows = {"in": 0, "out": 0}
         if isinstance(container, Plate):
             flows = {"in": np.zeros(container.wells.shape), "out": np.zeros(container.wells.shape)}
+
+        def total(obj):
+            if isinstance(obj, Plate):
+                return np.vectorize(plate_helper, otypes='d')(obj.wells)
+            return plate_helper(obj)
+
         for step in steps:
             if container.name in step.objects_used:
-                if isinstance(step.to[0], Container) and step.to[0].name == container.name:
-                    if step.trash:
-                        flows["out"] += sum(map(helper, step.trash.items()))
-                    else:
-                        flows["in"] += (sum(map(helper, step.to[1].contents.items())) -
-                                        sum(map(helper, step.to[0].contents.items())))
-                if isinstance(step.to[0], Plate) and step.to[0].name == container.name:
-                    if step.trash:
-                        flows["out"] += sum(map(helper, step.trash.items()))
-                    else:
-                        vfunc = np.vectorize(plate_helper, otypes='d')
-                        flows["in"] += vfunc(step.to[1].wells) - vfunc(step.to[0].wells)
-                if isinstance(step.frm[0], Container) and step.frm[0].name == container.name:
-                    flows["out"] += (sum(map(helper, step.frm[0].contents.items())) -
-                                     sum(map(helper, step.frm[1].contents.items())))
-                if isinstance(step.frm[0], Plate) and step.frm[0].name == container.name:
-                    vfunc = np.vectorize(plate_helper, otypes='d')
-                    flows["out"] += vfunc(step.frm[0].wells) - vfunc(step.frm[1].wells)
+                # what the object held before and after the step; a gain is inflow, a loss is outflow
+                if step.to[0] is not None and step.to[0].name == container.name:
+                    change = total(step.to[1]) - total(step.to[0])
+                elif step.frm[0] is not None and step.frm[0].name == container.name:
+                    change = total(step.frm[1]) - total(step.frm[0])
+                else:
+                    continue
+                flows["in"] += np.maximum(change, 0)
+                flows["out"] += np.maximum(-change, 0)
         precision = config.precisions[unit] if unit in config.precisions else config.precisions['default']
         for key in flows:
             flows[key] = np.round(flows[key], precision) if isinstance(flows[key], np.ndarray) \
